@@ -398,11 +398,12 @@ def run_stalled_reader(role, ka, stall_s, obs):
     return []
 
 
-def run_announced(role, seg_mru, xfer_mru, keepalive, obs, nodeid='dtn://announcer/'):
+def run_announced(role, seg_mru, xfer_mru, keepalive, obs, nodeid='dtn://announcer/', raw_nodeid=None):
     ''' A scripted peer announces arbitrary values; get_session_parameters() must report them as announced. '''
     from vf.props import c17
     peer = c17.Peer(role, 'pre-init')
-    peer.write(tw.encode(dict(type='SESS_INIT', keepalive=keepalive, segment_mru=seg_mru, transfer_mru=xfer_mru, nodeid=nodeid.encode('utf-8'), ext=[])))
+    peer.write(tw.encode(dict(type='SESS_INIT', keepalive=keepalive, segment_mru=seg_mru, transfer_mru=xfer_mru,
+                              nodeid=raw_nodeid if raw_nodeid is not None else nodeid.encode('utf-8'), ext=[])))
     peer.sent_sess_init = True
     peer.settle()
     obs['runs'] += 1
@@ -410,6 +411,20 @@ def run_announced(role, seg_mru, xfer_mru, keepalive, obs, nodeid='dtn://announc
     errs = peer.sim.world.callback_errors
     if errs:
         return ['callback %s raised %s: %s' % (errs[0].source, errs[0].exc_type, str(errs[0].exc)[:80])]
+    for viol in peer.sim.hist.sig_violations:
+        problems.append('%s %s.%s%s does not marshal as %r: %s' % (viol.kind, viol.iface, viol.member, viol.args_repr[:60], viol.signature, viol.msg[:60]))
+    if raw_nodeid is not None:
+        # octets that are no URI text: nothing can be "reported as announced"; refusing the session is the consistent outcome, and
+        # whatever happens nothing may raise or fail to marshal
+        obs['unreportable_nodeid_runs'] = obs.get('unreportable_nodeid_runs', 0) + 1
+        if not (peer.terminating() or peer.closed()):
+            try:
+                dict(peer.end.call('get_session_parameters'))
+            except Exception as err:  # pylint: disable=broad-except
+                problems.append('get_session_parameters failed for a peer node id that is no text: %s' % str(err)[:80])
+            for viol in peer.sim.hist.sig_violations:
+                problems.append('%s %s.%s does not marshal as %r: %s' % (viol.kind, viol.iface, viol.member, viol.signature, viol.msg[:60]))
+        return problems
     try:
         params = dict(peer.end.call('get_session_parameters'))
     except Exception as err:  # pylint: disable=broad-except
@@ -571,6 +586,8 @@ def run_case(case):
             for nodeid in ('dtn://' + 'n' * 248 + '/', 'dtn://' + 'n' * 249 + '/', 'dtn://' + 'n' * 293 + '/', 'dtn://' + 'n' * 2000 + '/svc',
                            'dtn://' + '\u00e9' * 130 + '/', 'ipn:' + '9' * 19 + '.' + '7' * 19, 'dtn://a/', 'x:'):
                 note(run_announced(role, 4096, 2 ** 20, 0, obs, nodeid=nodeid), 'announced', dict(role=role, nodeid_len=len(nodeid)))
+            for raw in (b'dtn://a\x00b/', b'dtn://peer/\x00', b'dtn://n\xe9ud/', b'\xff\xfe', b'\x00'):
+                note(run_announced(role, 4096, 2 ** 20, 0, obs, raw_nodeid=raw), 'announced', dict(role=role, raw_nodeid=raw.hex()))
     elif case['kind'] == 'stalled':
         for role in ('passive', 'active'):
             for (ka, stall_s) in ((1, 2.5), (2, 2.1), (3, 10), (2, 0.5)):
